@@ -10,7 +10,8 @@ namespace SamVerif.RedirStop
 /-- the read loop of backend connection A -/
 inductive Rd
   | reading    -- waits for the next reply of node A (ends when its connection is closed: quit)
-  | sending    -- follows a redirection: inside `B.Send`, waiting for room in B's queue
+  | queuing    -- follows a redirection: inside `B.Send`, waiting for its turn (another sender's Send holds it and waits for room)
+  | sending    -- inside `B.Send`, it is its turn: waiting for room in B's queue
   | exited
 deriving DecidableEq, Repr
 
@@ -33,10 +34,17 @@ structure S where
   bQuit : Bool := false
   bLoops : Bool := true      -- B's loops are running (they end when B is told to quit)
   pc : Pc := .running
+  /-- a session's Send for node B has the turn and waits for room in B's queue -/
+  held : Bool := false
+  /-- `true`: the wait for the turn gives up like the wait for room (a channel and a select since 058c6b1; a mutex before) -/
+  turnAbort : Bool := true
 deriving Repr
 
 inductive Label
-  | reply          -- node A answers MOVED to B: the reader starts to resend
+  | reply          -- node A answers MOVED/ASK to B: the reader starts to resend
+  | turn           -- nobody holds the turn any more
+  | holderLeaves   -- the session's Send returns (room, or B has quit)
+  | queueGivesUp   -- the wait for the turn ends because A or B has quit
   | enqueue        -- there is room in B's queue
   | targetQuit     -- B.Send returns because B has quit
   | aborted        -- B.Send returns because A itself has quit
@@ -55,7 +63,17 @@ def inHandIsA (s : S) : Bool :=
   | _ => false
 
 def step (s : S) : Label → Option S
-  | .reply => if s.rd = .reading ∧ s.aQuit = false ∧ 0 < s.pendingRedir then some { s with rd := .sending, pendingRedir := s.pendingRedir - 1 } else none
+  | .reply =>
+    if s.rd = .reading ∧ s.aQuit = false ∧ 0 < s.pendingRedir then
+      some { s with rd := if s.held then .queuing else .sending, pendingRedir := s.pendingRedir - 1 }
+    else none
+  | .turn => if s.rd = .queuing ∧ s.held = false then some { s with rd := .sending } else none
+  | .holderLeaves =>
+    if s.held = true ∧ s.bQuit = true then some { s with held := false }
+    else if s.held = true ∧ 0 < s.room then some { s with held := false, room := s.room - 1 }
+    else none
+  | .queueGivesUp =>
+    if s.rd = .queuing ∧ s.turnAbort = true ∧ (s.bQuit = true ∨ (s.abort = true ∧ s.aQuit = true)) then some { s with rd := .reading } else none
   | .enqueue => if s.rd = .sending ∧ 0 < s.room ∧ s.bQuit = false then some { s with rd := .reading, room := s.room - 1 } else none
   | .targetQuit => if s.rd = .sending ∧ s.bQuit = true then some { s with rd := .reading } else none
   | .aborted => if s.rd = .sending ∧ s.abort = true ∧ s.aQuit = true then some { s with rd := .reading } else none
@@ -82,6 +100,7 @@ def pcRank : Pc → Nat
 
 /-- what is left to do once stopping has begun -/
 def mu (s : S) : Nat :=
-  10 * pcRank s.pc + 3 * s.pendingRedir + (match s.rd with | .sending => 2 | .reading => 1 | .exited => 0) + (if s.bLoops then 1 else 0)
+  10 * pcRank s.pc + 3 * s.pendingRedir + (match s.rd with | .queuing => 3 | .sending => 2 | .reading => 1 | .exited => 0) + (if s.bLoops then 1 else 0) +
+  (if s.held then 1 else 0)
 
 end SamVerif.RedirStop
